@@ -100,27 +100,33 @@ def tile(lo, hi, depth, L):
     return out
 
 
-def write_bam(world, db, build, path, segments):
+def write_bam(world, db, build, path, segments, decoy=None):
+    """decoy: segments written on ANOTHER contig whose name ends with the gene's contig name ("1" + CHROM), at the same coordinates;
+    the file is then written as plain SAM text without an index (every record goes through the loader's own locus test)"""
     import pysam
     reads = []
     for lo, hi, depth, L in segments:
-        reads += tile(lo, hi, depth, L)
+        reads += [(0, a, b) for a, b in tile(lo, hi, depth, L)]
+    for lo, hi, depth, L in (decoy or []):
+        reads += [(1, a, b) for a, b in tile(lo, hi, depth, L)]
     reads.sort()
-    hdr = {"HD": {"VN": "1.0", "SO": "coordinate"}, "SQ": [{"SN": CHROM, "LN": LN}]}
-    with pysam.AlignmentFile(path, "wb", header=hdr) as f:
-        for i, (a, b) in enumerate(reads):
+    sq = [{"SN": CHROM, "LN": LN}] + ([{"SN": "1" + CHROM, "LN": LN}] if decoy else [])
+    hdr = {"HD": {"VN": "1.0", "SO": "coordinate"}, "SQ": sq}
+    with pysam.AlignmentFile(path, "w" if decoy else "wb", header=hdr) as f:
+        for i, (rid, a, b) in enumerate(reads):
             r = pysam.AlignedSegment()
             r.query_name = f"r{i}"
             r.query_sequence = "".join(world.refbase(db, build, j) for j in range(a, b))
             r.flag = 0
-            r.reference_id = 0
+            r.reference_id = rid
             r.reference_start = a
             r.mapping_quality = 60
             r.cigar = ((0, b - a),)
             r.query_qualities = pysam.qualitystring_to_array("I" * (b - a))
             f.write(r)
-    pysam.index(path)
-    return reads
+    if not decoy:
+        pysam.index(path)
+    return [(a, b) for rid, a, b in reads if rid == 0]
 
 
 # ------------------------------------------------------------------ case generation
@@ -196,8 +202,12 @@ def gen_case(rng, k, world, force=None):
         cn = None
     fmt = rng.choice(["simple", "simple", "aldy", "vcf", "none", "flag-simple"])
     route = "cli" if (rng.random() < 0.12 and fmt in ("simple", "aldy", "vcf")) else "api"
-    return {"id": k, "db": db, "build": build, "layout": layout, "neutral": neutral, "mode": mode, "cn": cn, "fmt": fmt,
+    case = {"id": k, "db": db, "build": build, "layout": layout, "neutral": neutral, "mode": mode, "cn": cn, "fmt": fmt,
             "min_avg": min_avg, "segments": seg, "route": route}
+    if rng.random() < 0.2 and mode != "bam":
+        # plain SAM text, and well-covered reads at the locus and the neutral region of ANOTHER contig whose name ends with the gene's
+        case["decoy"] = [[lo - 40, hi + 40, 20, L], [NEUT[0] - 40, NEUT[1] + 40, 20, L]]
+    return case
 
 
 def witnesses(world):
@@ -264,6 +274,8 @@ def run_impl(case, world, d, bam):
     params = {}
     if case["min_avg"] is not None:
         params["min_avg_coverage"] = case["min_avg"]
+    if case.get("decoy"):
+        params["indelpost"] = "false"  # the realigner needs an indexed file; plain SAM text has none
     profile = {"yaml": ref_yml, "bam": ref_bam, "supplied": None}[case["mode"]]
     cn_region = GRange(CHROM, *NEUT) if case["mode"] == "bam" else None
     obs = {"error": None, "kind": None, "calls": [], "crash": None}
@@ -456,7 +468,9 @@ def evaluate(chk, cases, world, variant=None):
             sub = os.path.join(d, f"dir{k}")
             os.makedirs(sub, exist_ok=True)
             bam = os.path.join(sub, "sample.bam") if k % 2 else os.path.join(d, f"s{k}.bam")
-            write_bam(world, case["db"], case["build"], bam, case["segments"])
+            if case.get("decoy"):
+                bam = bam[:-4] + ".sam"
+            write_bam(world, case["db"], case["build"], bam, case["segments"], decoy=case.get("decoy"))
             obs = run_impl(case, world, d, bam)
             try:
                 ev = extract_evidence(case, world, bam)
